@@ -113,6 +113,14 @@ func c02Suffixes() []seqDef {
 		sq("out().hasLabel(Q).out()", q.Out().HasLabel("Q").Out()),
 		sq("as(a).out().as(b).select(a,b)", q.As("a").Out().As("b").Select("a", "b")),
 		sq("out().as(b).in().hasKey($b.p)", q.Out().As("b").In().HasKey("$b.p")),
+		// the same references spelled through _data: the planner must still load what they read
+		sq("outE().as(e).out().has(gt($e._data.p,0))", q.OutE().As("e").Out().Has(cond("GT", "$e._data.p", 0.0))),
+		{"outE().as(e).out().render($e._data.p,$e._data)", with(q.OutE().As("e").Out(), renderStmt(M{"w": "$e._data.p", "d": "$e._data", "g": "_gid"}))},
+		sq("outE().hasKey(_data.p).out()", q.OutE().HasKey("_data.p").Out()),
+		sq("outE().has(eq(_data.p,1)).out()", q.OutE().Has(cond("EQ", "_data.p", 1.0)).Out()),
+		sq("inE().has(eq($._data.p,2)).in()", q.InE().Has(cond("EQ", "$._data.p", 2.0)).In()),
+		sq("as(a).out().has(eq($a._data.p,1)).count()", q.As("a").Out().Has(cond("EQ", "$a._data.p", 1.0)).Count()),
+		{"bothE().as(e).both().render($e._data)", with(q.BothE().As("e").Both(), renderStmt("$e._data"))},
 	}
 }
 
@@ -139,6 +147,9 @@ func c02Families() [][]seqDef {
 			sq("has(and(eq(_gid,a)))", q.Has(andE(cond("EQ", "_gid", "a")))), sq("hasId(a,a)", q.HasID("a", "a")), sq("has(within(_gid,[a,a]))", q.Has(cond("WITHIN", "_gid", l("a", "a"))))},
 		{sq("hasId(a,b)", q.HasID("a", "b")), sq("hasId(b,a)", q.HasID("b", "a")), sq("hasId(b,a,zz,b)", q.HasID("b", "a", "zz", "b")),
 			sq("has(within(_gid,[b,a]))", q.Has(cond("WITHIN", "_gid", l("b", "a")))), sq("has(within(_gid,[a,zz,b,a]))", q.Has(cond("WITHIN", "_gid", l("a", "zz", "b", "a"))))},
+		{sq("has(eq(p,1))", q.Has(cond("EQ", "p", 1.0))), sq("has(eq($.p,1))", q.Has(cond("EQ", "$.p", 1.0))), sq("has(eq(_data.p,1))", q.Has(cond("EQ", "_data.p", 1.0))),
+			sq("has(eq($._data.p,1))", q.Has(cond("EQ", "$._data.p", 1.0)))},
+		{sq("outE().hasKey(p).out()", q.OutE().HasKey("p").Out()), sq("outE().hasKey(_data.p).out()", q.OutE().HasKey("_data.p").Out()), sq("outE().hasKey($.p).out()", q.OutE().HasKey("$.p").Out())},
 		{sq("hasLabel(P).hasId(a)", q.HasLabel("P").HasID("a")), sq("hasId(a).hasLabel(P)", q.HasID("a").HasLabel("P")),
 			sq("has(and(eq(_label,P),eq(_gid,a)))", q.Has(andE(cond("EQ", "_label", "P"), cond("EQ", "_gid", "a")))),
 			sq("has(and(eq(_gid,a),eq(_label,P)))", q.Has(andE(cond("EQ", "_gid", "a"), cond("EQ", "_label", "P"))))},
